@@ -1129,3 +1129,108 @@ Proof.
       * assert (n_marker (upd_ents_step nd2 (u_ents u)) = n_marker nd2) as ->; [|exact C3].
         unfold upd_ents_step. now destruct (u_ents u).
 Qed.
+
+(* ---------- SaveRaftState with several updates, batched format ---------- *)
+
+Lemma save_list_b : forall m, sorted m -> WT m -> forall us c s,
+  nodes_distinct (map u_node us) = true ->
+  (forall n, In n (map u_node us) -> RB1 (kv_get m) (c n) (s n) n) ->
+  forallb (fun u => update_wf (s (u_node u)) u) us = true ->
+  exists c1 Wh, save_heads m c us = Some (c1, Wh) /\
+    (forall n, ~ In n (map u_node us) -> c1 n = c n) /\
+    wb_in_nodes Wh (map u_node us) /\ wb_wt Wh /\
+    forall ct, (forall n, In n (map u_node us) -> ct n = c1 n) ->
+      exists c2 Wt, b_save_tails m ct us = Some (c2, Wt) /\
+      (forall n, ~ In n (map u_node us) -> c2 n = ct n) /\
+      wb_in_nodes Wt (map u_node us) /\ wb_wt Wt /\
+      forall n, In n (map u_node us) ->
+        RB1 (gapply (Wh ++ Wt) (kv_get m)) (c2 n) (save_step s us n) n.
+Proof.
+  intros m HS HW. induction us as [|u us IH]; intros c s HD HR Hwf.
+  - exists c, []. split; [reflexivity|]. split; [auto|]. split; [intros o []|]. split; [intros k v []|].
+    intros ct _. exists ct, []. split; [reflexivity|]. split; [auto|]. split; [intros o []|].
+    split; [intros k v []|]. intros n [].
+  - cbn [map] in HD, HR. destruct (nodes_distinct_cons _ _ HD) as [Hnin HD'].
+    cbn [forallb] in Hwf. apply andb_true_iff in Hwf. destruct Hwf as [Wu Wus].
+    set (n0 := u_node u) in *.
+    destruct (save_node_b m c (s n0) n0 u HS HW (HR n0 (or_introl eq_refl)) eq_refl Wu)
+      as (c1a & wh & EH & O1 & Kh & Th & Tail).
+    set (s' := supd s n0 (update_step (s n0) u)).
+    destruct (IH c1a s' HD') as (c1 & Whr & EHr & Or & Khr & Thr & Tailr).
+    { intros n HI. assert (n <> n0) by (intros ->; contradiction).
+      rewrite O1 by auto. unfold s'. rewrite supd_other by auto. apply HR. now right. }
+    { rewrite forallb_forall in *. intros x HI. unfold s'. rewrite supd_other; auto.
+      intros X. apply Hnin. rewrite <- X. now apply in_map. }
+    exists c1, (wh ++ Whr). cbn [save_heads]. rewrite EH, EHr. split; [reflexivity|].
+    split; [|split; [|split]].
+    + intros n Hn. cbn [map In] in Hn. rewrite Or by tauto. apply O1. intros ->. apply Hn. now left.
+    + intros o HI. apply in_app_or in HI. cbn [map]. destruct HI as [HI|HI].
+      * left. symmetry. now apply Kh.
+      * right. now apply Khr.
+    + now apply wb_wt_app.
+    + intros ct Hct. cbn [b_save_tails].
+      assert (Hct0 : ct n0 = c1a n0).
+      { rewrite Hct by (cbn [map]; now left). now apply Or. }
+      destruct (Tail ct Hct0) as (cta & wt_ & ET & Ot & Kt & Tt & Rt). rewrite ET.
+      destruct (Tailr cta) as (c2 & Wtr & ETr & Otr & Ktr & Ttr & Rtr).
+      { intros n HI. assert (n <> n0) by (intros ->; contradiction).
+        rewrite Ot by auto. apply Hct. cbn [map]. now right. }
+      rewrite ETr. exists c2, (wt_ ++ Wtr). split; [reflexivity|].
+      split; [|split; [|split]].
+      * intros n Hn. cbn [map In] in Hn. rewrite Otr by tauto. apply Ot. intros ->. apply Hn. now left.
+      * intros o HI. apply in_app_or in HI. cbn [map]. destruct HI as [HI|HI].
+        -- left. symmetry. now apply Kt.
+        -- right. now apply Ktr.
+      * now apply wb_wt_app.
+      * intros n Hn. cbn [map In] in Hn. destruct (nid_dec n n0) as [->|Hne].
+        -- rewrite Otr by auto.
+           assert (save_step s (u :: us) n0 = update_step (s n0) u) as ->.
+           { change (save_step s (u :: us) n0) with (save_step s' us n0).
+             rewrite save_step_other by auto. unfold s'. apply supd_same. }
+           eapply RB1_ext; [exact Rt|]. intros k Hk. unfold gapply.
+           rewrite !wb_last_app.
+           rewrite (wb_last_not_node Wtr _ k Ktr) by (rewrite Hk; auto).
+           rewrite (wb_last_not_node Whr _ k Khr) by (rewrite Hk; auto).
+           reflexivity.
+        -- destruct Hn as [Hn|Hn]; [exfalso; apply Hne; symmetry; exact Hn|].
+           assert (save_step s (u :: us) n = save_step s' us n) as -> by reflexivity.
+           eapply RB1_ext; [exact (Rtr n Hn)|]. intros k Hk. unfold gapply.
+           rewrite !wb_last_app.
+           assert (wb_last wt_ k = None) as ->.
+           { apply wb_last_none. intros o HI X. apply Hne. rewrite <- Hk, <- X. now apply Kt. }
+           assert (wb_last wh k = None) as ->.
+           { apply wb_last_none. intros o HI X. apply Hne. rewrite <- Hk, <- X. now apply Kh. }
+           destruct (wb_last Wtr k); destruct (wb_last Whr k); reflexivity.
+Qed.
+
+(* ---------- the batched relation on whole stores ---------- *)
+
+Definition RB (d : pdb) (s : sstate) : Prop :=
+  sorted (p_kv d) /\ WT (p_kv d) /\ forall n, RB1 (kv_get (p_kv d)) (p_cache d n) (s n) n.
+
+Definition sstrip (s : sstate) : sstate := fun n => strip (s n).
+
+Lemma RB_R : forall d s, RB d s -> R d (sstrip s).
+Proof.
+  intros d s (HS & HW & H). split; [exact HS | split; [exact HW|]]. intros n. apply Rn_G. apply (H n).
+Qed.
+
+Lemma save_raft_state_RB : forall d s us, RB d s -> spec_wf_op s (OSave us) = true ->
+  exists d', batched_step d (OSave us) = Some d' /\ RB d' (spec_step s (OSave us)).
+Proof.
+  intros d s us (HS & HW & HR) Hwf. cbn [spec_wf_op] in Hwf. apply andb_true_iff in Hwf.
+  destruct Hwf as [HD Hwf].
+  destruct (save_list_b (p_kv d) HS HW us (p_cache d) s HD) as (c1 & Wh & EH & O1 & Kh & Th & Tail); auto.
+  destruct (Tail c1 (fun n _ => eq_refl)) as (c2 & Wt & ET & O2 & Kt & Tt & RT).
+  cbn [batched_step]. unfold b_save_raft_state. rewrite EH, ET.
+  eexists. split; [reflexivity|]. cbn [spec_step].
+  split; [now apply sorted_commit | split].
+  - apply WT_commit; auto. now apply wb_wt_app.
+  - intros n. cbn [p_kv p_cache]. destruct (in_dec nid_dec n (map u_node us)) as [HI|HI].
+    + eapply RB1_ext; [exact (RT n HI)|]. intros k _. now apply get_commit_g.
+    + rewrite O2, O1 by auto. rewrite save_step_other by auto.
+      eapply RB1_ext; [apply HR|]. intros k Hk. rewrite get_commit by auto.
+      rewrite wb_last_app.
+      rewrite (wb_last_not_node Wt _ k Kt) by (rewrite Hk; auto).
+      rewrite (wb_last_not_node Wh _ k Kh) by (rewrite Hk; auto). reflexivity.
+Qed.
